@@ -31,7 +31,7 @@ CLAUSES = {
     "C15": ["R2_equal", "R2_exposed", "C01_value", "C03_value", "C06_entity", "C06_condition", "C06_enable", "C09_bag", "C09_extra", "C01_settles"],
     "C16": ["R2_equal", "R2_exposed", "C01_value", "C03_value", "C06_entity", "C06_condition", "C06_enable", "C09_bag", "C09_extra", "C01_settles"],
     "C17": ["R2_equal", "R2_exposed", "C01_value", "C01_settles", "C17_terminates", "C17_import_trace", "C17_import_once"],
-    "C18": ["C18_powered", "C18_powered_outside", "C18_one_grid", "C18_no_option", "C08_wire_reach", "C08_wire_ends", "C08_overlap", "R2_equal", "R2_exposed",
+    "C18": ["C18_powered", "C18_powered_outside", "C18_one_grid", "C18_grid_gap", "C18_no_option", "C08_wire_reach", "C08_wire_ends", "C08_overlap", "R2_equal", "R2_exposed",
             "C09_bag", "C09_extra", "C06_enable", "C06_entity", "C06_condition", "C01_settles"],
     "C20": ["C20_exposed", "C20_label", "C20_input", "C01_value", "C02_bag"],
 }
@@ -263,7 +263,7 @@ def mem_check(ctx, grps, vclause, nquick):
     progs = [p for p in with_ids(gen.generate("GenMem"), "me") if p["grp"] in grps]
     if vclause == "C03_value":
         # cells declared inside functions and loop bodies (per call / per iteration instances, name clashes with the caller)
-        progs += [p for p in with_ids(gen.generate("GenFL"), "fl") if p.get("mode") == "hist"]
+        progs += [dict(p, dom=[-3, 0, 1, 5]) if ctx.tier == "quick" else p for p in with_ids(gen.generate("GenFL"), "fl") if p.get("mode") == "hist"]
     ctx.cov["corpus_size"] = len(progs)
     if ctx.tier == "quick":
         sel = pick_strat(progs, nquick, ctx.seed, min_per=5)
